@@ -956,14 +956,14 @@ theorem MapSim.contains {a b : SMap Unacked} (hsim : MapSim a b) (id : Nat) : SM
 
 /-! ## Part 3 : RenetClient -/
 
-def _root_.RenetVerif.SentInfo.chan? : SentInfo → Option Nat
+def chanOf : SentInfo → Option Nat
   | .relMsgs ch _ => some ch
   | .relSlice ch _ _ => some ch
   | _ => Option.none
 
 /-- a recorded packet is consistent with the reliable send channels -/
 def InfoOKC (sr : SMap SendRel) (info : SentInfo) : Prop :=
-  ∀ ch, info.chan? = some ch → ∃ s, find? sr ch = some s ∧ s.InfoOK info
+  ∀ ch, chanOf info = some ch → ∃ s, find? sr ch = some s ∧ s.InfoOK info
 
 /-- every channel present before is present after and is a `Step` later; no channel appears -/
 def SRStep (sr sr' : SMap SendRel) : Prop :=
@@ -1177,7 +1177,7 @@ theorem Conn.update_inv {c c' : Conn} {dt : Nat} (h : c.SendInv) (hr : c.update 
 
 /-! ### get_packets_to_send (connection) -/
 
-def _root_.RenetVerif.Packet.isAck : Packet → Bool
+def isAckPkt : Packet → Bool
   | .ack .. => true
   | _ => false
 
@@ -1229,12 +1229,12 @@ theorem SRGet.update {sr : SMap SendRel} {ch : Nat} {s s' : SendRel} (hf : find?
 
 /-- the info recorded for a non-ack packet is consistent with the channels -/
 def PInfoOK (sr : SMap SendRel) (p : Packet) : Prop :=
-  p.isAck = false ∧ ∀ info, Conn.sentInfoOf p = .ok info → InfoOKC sr info
+  isAckPkt p = false ∧ ∀ info, Conn.sentInfoOf p = .ok info → InfoOKC sr info
 
 theorem PInfoOK.step {sr sr' : SMap SendRel} (h : SRStep sr sr') {p : Packet} (hp : PInfoOK sr p) : PInfoOK sr' p :=
   ⟨hp.1, fun info hi => (hp.2 info hi).step h⟩
 
-theorem sentInfoOf_of_not_ack : ∀ {p : Packet}, p.isAck = false → ∃ info, Conn.sentInfoOf p = .ok info
+theorem sentInfoOf_of_not_ack : ∀ {p : Packet}, isAckPkt p = false → ∃ info, Conn.sentInfoOf p = .ok info
   | .smallReliable .., _ => ⟨_, rfl⟩
   | .smallUnreliable .., _ => ⟨_, rfl⟩
   | .reliableSlice .., _ => ⟨_, rfl⟩
@@ -1251,7 +1251,7 @@ theorem PktOK.pinfo {sr : SMap SendRel} {s : SendRel} (hf : find? sr s.ch = some
     simp only [Conn.sentInfoOf, Res.ok.injEq] at hinfo
     subst hinfo
     intro ch hch
-    simp only [SentInfo.chan?, Option.some.injEq] at hch
+    simp only [chanOf, Option.some.injEq] at hch
     subst hch
     refine ⟨s, hf, ?_⟩
     intro id hid
@@ -1268,7 +1268,7 @@ theorem PktOK.pinfo {sr : SMap SendRel} {s : SendRel} (hf : find? sr s.ch = some
     simp only [Conn.sentInfoOf, Res.ok.injEq] at hinfo
     subst hinfo
     intro ch hch
-    simp only [SentInfo.chan?, Option.some.injEq] at hch
+    simp only [chanOf, Option.some.injEq] at hch
     subst hch
     refine ⟨s, hf, hi.find_lt hfx, ?_⟩
     intro u hu
@@ -1279,10 +1279,10 @@ theorem PktOK.pinfo {sr : SMap SendRel} {s : SendRel} (hf : find? sr s.ch = some
 
 /-! #### unreliable channels: only sequence numbers matter here -/
 def UP (seq0 : Nat) (pk : List Packet) (seq : Nat) : Prop :=
-  (∀ p ∈ pk, Conn.sentInfoOf p = .ok .none ∧ p.isAck = false ∧ seq0 ≤ p.sequence ∧ p.sequence < seq) ∧ seq0 ≤ seq
+  (∀ p ∈ pk, Conn.sentInfoOf p = .ok .none ∧ isAckPkt p = false ∧ seq0 ≤ p.sequence ∧ p.sequence < seq) ∧ seq0 ≤ seq
 
 theorem UP.append {seq0 : Nat} {pk : List Packet} {seq : Nat} {ps : List Packet} {sq : Nat} (h : UP seq0 pk seq)
-    (hps : ∀ p ∈ ps, Conn.sentInfoOf p = .ok .none ∧ p.isAck = false ∧ seq ≤ p.sequence ∧ p.sequence < sq) (hle : seq ≤ sq) :
+    (hps : ∀ p ∈ ps, Conn.sentInfoOf p = .ok .none ∧ isAckPkt p = false ∧ seq ≤ p.sequence ∧ p.sequence < sq) (hle : seq ≤ sq) :
     UP seq0 (pk ++ ps) sq := by
   refine ⟨?_, Nat.le_trans h.2 hle⟩
   intro p hp
@@ -1295,7 +1295,7 @@ theorem UP.append {seq0 : Nat} {pk : List Packet} {seq : Nat} {ps : List Packet}
 
 theorem unrelSlices_spec (ch id : Nat) (m : Bytes) (n : Nat) : ∀ (l : List Nat) (seq : Nat) (p : Packet),
     p ∈ unrelSlices ch id m n l seq →
-    Conn.sentInfoOf p = .ok .none ∧ p.isAck = false ∧ seq ≤ p.sequence ∧ p.sequence < seq + l.length
+    Conn.sentInfoOf p = .ok .none ∧ isAckPkt p = false ∧ seq ≤ p.sequence ∧ p.sequence < seq + l.length
   | [], _, _, h => by cases h
   | i :: rest, seq, p, h => by
     simp only [unrelSlices, List.mem_cons] at h
@@ -1519,7 +1519,7 @@ theorem Conn.getPacketsToSend_char {c : Conn} (h : c.SendInv) (hw : Acks.WF c.pe
          | .ok bs => .ok (c1, bs)
          | .err e => .ok (c1.disconnectWith (.packetSer e), [])
          | .panic s => .panic s) ∧
-      c1.SendInv ∧ (∀ p ∈ pk0, p.isAck = false) ∧ c1.pendingAcks = c.pendingAcks ∧
+      c1.SendInv ∧ (∀ p ∈ pk0, isAckPkt p = false) ∧ c1.pendingAcks = c.pendingAcks ∧
       SRGet c.sendRel c1.sendRel ∧ c.packetSeq ≤ c1.packetSeq ∧ c1.order = c.order ∧
       c1.recvRel = c.recvRel ∧ c1.recvUnrel = c.recvUnrel ∧ c1.status = c.status ∧
       -- every new entry of the sent table describes a packet of this very flush, under that packet's number
@@ -1797,14 +1797,14 @@ theorem Conn.ackMsgLoop_spec {ch : Nat} : ∀ (ids : List Nat) {s : SendRel}, s.
         exact h1 (a1.gone id2 hnone)
 
 /-- the recorded packet `info` carried message `id` of channel `ch` (whole, or one of its slices) -/
-def _root_.RenetVerif.SentInfo.Names (info : SentInfo) (ch id : Nat) : Prop :=
+def Names (info : SentInfo) (ch id : Nat) : Prop :=
   (∃ ids, info = .relMsgs ch ids ∧ id ∈ ids) ∨ ∃ idx, info = .relSlice ch id idx
 
 /-- effect on channel `ch` of acknowledging the packets `L`, all recorded in `S` -/
 structure ChanEff (S : SMap (Nat × SentInfo)) (L : List Nat) (ch : Nat) (s s' : SendRel) : Prop where
   gone : ∀ id, find? s.unacked id = none → find? s'.unacked id = none
   just : ∀ id, find? s.unacked id ≠ none → find? s'.unacked id = none →
-    ∃ seq ∈ L, ∃ t info, find? S seq = some (t, info) ∧ info.Names ch id
+    ∃ seq ∈ L, ∃ t info, find? S seq = some (t, info) ∧ Names info ch id
   memLe : s'.mem ≤ s.mem
   maxMem : s'.maxMem = s.maxMem
   memLt : s'.mem < s.mem → ∃ id, find? s.unacked id ≠ none ∧ find? s'.unacked id = none
@@ -1968,7 +1968,7 @@ theorem Conn.same_dw {c c2 : Conn} {X : List AckRange} (r : Reason) (h1 : c.Send
 /-- the three ways `process_packet` can return normally -/
 theorem Conn.processPacket_cases {c c' : Conn} {bytes : Bytes} (hr : c.processPacket bytes = .ok c') :
     (c.SendSame c' ∧ c'.pendingAcks = c.pendingAcks ∧ (c.isDisconnected = true ∨ ∃ e, Packet.fromBytes bytes = .error e)) ∨
-    (∃ p, Packet.fromBytes bytes = .ok p ∧ p.isAck = false ∧ c.SendSame c' ∧
+    (∃ p, Packet.fromBytes bytes = .ok p ∧ isAckPkt p = false ∧ c.SendSame c' ∧
       c'.pendingAcks = Acks.add ACK_RANGE_CAP p.sequence c.pendingAcks) ∨
     (∃ aseq ranges L, c.isDisconnected = false ∧ Packet.fromBytes bytes = .ok (.ack aseq ranges) ∧
       Conn.newAcks c.sent ranges = .ok L ∧
@@ -2248,7 +2248,7 @@ theorem SRGet.keeps {sr sr' : SMap SendRel} (hg : SRGet sr sr') {ch : Nat} {s : 
     whose ranges are exactly the pending list; all other packets are not ack packets -/
 theorem Conn.getPacketsToSend_ack {c c' : Conn} {out : List Bytes} (h : c.SendInv) (hw : Acks.WF c.pendingAcks)
     (hd : c.isDisconnected = false) (hne : c.pendingAcks ≠ []) (hr : c.getPacketsToSend = .ok (c', out)) :
-    ∃ pk0 seq0, (∀ p ∈ pk0, p.isAck = false) ∧
+    ∃ pk0 seq0, (∀ p ∈ pk0, isAckPkt p = false) ∧
       (Conn.serialiseAll (pk0 ++ [Packet.ack seq0 c.pendingAcks]) = .ok out ∨
        ∃ e, Conn.serialiseAll (pk0 ++ [Packet.ack seq0 c.pendingAcks]) = .err e ∧ out = []) := by
   obtain ⟨c1, pk0, seq0, e, -, na, -⟩ := Conn.getPacketsToSend_char h hw hd
